@@ -154,7 +154,7 @@ class LDAPMessageParsableBase(ParsableBase):
             message = LDAPMessage.load(bytes(parsable))
             # ensure recursive parsing
             message.native  # pylint: disable=pointless-statement
-        except KeyError as e:
+        except (KeyError, TypeError) as e:
             six.raise_from(InvalidValue(parsable, cls), e)
         except ValueError as e:
             match = cls._NOT_ENOUGH_DATA_REGEX.match(e.args[0])
@@ -167,6 +167,20 @@ class LDAPMessageParsableBase(ParsableBase):
 
         return message
 
+    @classmethod
+    def _get_message_size(cls, parsable):
+        # the octets the outer SEQUENCE occupies, from its own header: identifier octet, length octets, contents
+        length_octet = six.indexbytes(parsable, 1)
+        if length_octet < 0x80:
+            return 2 + length_octet
+
+        length_size = length_octet & 0x7f
+        length = 0
+        for length_octet in six.iterbytes(bytes(parsable[2:2 + length_size])):
+            length = (length << 8) | length_octet
+
+        return 2 + length_size + length
+
 
 class LDAPExtendedRequestStartTLS(LDAPMessageParsableBase):
     @classmethod
@@ -175,7 +189,7 @@ class LDAPExtendedRequestStartTLS(LDAPMessageParsableBase):
         if asn1_message['protocolOp'].name != 'extendedReq':
             raise InvalidType()
 
-        return LDAPExtendedRequestStartTLS(), len(asn1_message.dump())
+        return LDAPExtendedRequestStartTLS(), cls._get_message_size(parsable)
 
     def compose(self):
         return LDAPMessage({
@@ -200,7 +214,7 @@ class LDAPExtendedResponseStartTLS(LDAPMessageParsableBase):
 
         return LDAPExtendedResponseStartTLS(
             asn1_message['protocolOp'].chosen['resultCode'].native
-        ), len(asn1_message.dump())
+        ), cls._get_message_size(parsable)
 
     def compose(self):
         return LDAPMessage({
